@@ -629,8 +629,9 @@ impl FixtureDatabase {
             );
         }
 
-        // Check if this is a test function
-        let is_test = func_name.starts_with("test_");
+        // Check if this is a test function (a fixture whose function happens to be called
+        // `test_…` was handled above; its parameters and body must not be recorded twice)
+        let is_test = func_name.starts_with("test_") && fixture_decorator.is_none();
 
         if is_test {
             debug!("Found test function: {}", func_name);
